@@ -7,7 +7,15 @@
 set -u
 PATCH=$(readlink -f "$1"); PROP=$2; TIER=${3:-quick}
 VERIF=$(cd "$(dirname "$0")/.." && pwd)
-SLOT=${MUTSLOT:-$$}
+# A fixed scratch path keeps the Go build cache small (cache entries are keyed by
+# path): use slot 0 when free (flock), a per-process slot otherwise.
+mkdir -p /tmp/fgmut
+if [ -z "${MUTSLOT:-}" ]; then
+  exec 9>/tmp/fgmut/w0.lock
+  if flock -n 9; then SLOT=0; else SLOT=$$; fi
+else
+  SLOT=$MUTSLOT
+fi
 W=/tmp/fgmut/w$SLOT
 rm -rf $W; mkdir -p $W
 rsync -a --exclude .git /repo/ $W/repo/
